@@ -217,7 +217,7 @@ def q_events(b, G, hb):
     return Q
 
 
-WANT = {"C05": ["free2", "leak", "excl"], "C06": ["uaf", "race"]}[PROP]
+WANT = {"C05": ["free2", "leak", "excl", "uaf"], "C06": ["uaf", "race"]}[PROP]   # uaf under C05 too: "freed ... after the last handle is gone"
 progs = programs(TIER, SEED)
 if os.environ.get("RC11_ONLY"):
     progs = [p for p in progs if os.environ["RC11_ONLY"] in ("%s%s %s" % (p[0], "+promo" if p[2] else "", p[1]))]
